@@ -682,6 +682,14 @@ def gen_tcp_cases(r, tier):
                 c = Case(seed=n, ops=ops, **kw)
                 c.kind = "tcp-sched"
                 cases.append(c)
+    # a send in every state of the set-up after the wait has already timed out once (no more
+    # waiting then): in particular in state CSM, between the local CSM and the peer's
+    for n0 in (0, 1, 2):
+        for n in range(0, 8):
+            for kw in ({}, dict(skey=b"other")):
+                c = Case(seed=n, ops=["C%d" % n0, "wc1", "r%d" % n, "qc2", "wc3", "r", "qc4"], **kw)
+                c.kind = "tcp-sched"
+                cases.append(c)
     inj = ["@req9", "40", "1603030005", "170303000a" + "41" * 10, "d1" + "00" * 20]
     for j in inj:
         for ops in (["C", "ic" + j, "qc1", "r50"], ["C", "qc1", "ic" + j, "qc2", "r50"],
